@@ -173,6 +173,13 @@ pub fn run(ctx: &Ctx, rep: &mut Report) {
                             vals.push((-(1i64 << i) + d) as u64 & mask);
                         }
                     }
+                    for k in 0..width {
+                        for base in [sent, -sent] {
+                            vals.push(((base ^ (1i64 << k)) as u64) & mask);
+                            vals.push(((base + (1i64 << k)) as u64) & mask);
+                            vals.push(((base - (1i64 << k)) as u64) & mask);
+                        }
+                    }
                     for deg in -181i64..=181 {
                         for d in -2i64..=2 {
                             vals.push(((deg * 600_000 + d) as u64) & mask);
